@@ -438,6 +438,15 @@ def _check(args):
             if r.get("type", "").startswith(("text", "integer")) and rng.random() < 0.3:
                 for k in [k for k in r if k.startswith("label")]:
                     del r[k]
+    if i % 3 == 2 and form.get("choices"):      # choices that draw row-numbered messages: a choice without any label (warning), a repeated name (error)
+        rc = rng_for(seed, PID, "choice-messages", i)
+        ch = form["choices"]
+        victim = ch[rc.randrange(len(ch))]
+        if rc.random() < 0.7:
+            for k in [k for k in victim if k.split("::")[0].strip().lower() in ("label", "image", "audio", "video", "media")]:
+                del victim[k]
+        else:
+            ch.insert(ch.index(victim) + 1, dict(victim))
     if rng.random() < 0.4:      # flag settings read through the yes/no table
         row = (form.get("settings") or [{}])[0]
         if rng.random() < 0.5 and not any(k.startswith("public_key") for k in row):
